@@ -23,6 +23,7 @@
 
 #include <dlfcn.h>
 #include <fcntl.h>
+#include <ftw.h>
 #include <stdarg.h>
 #include <sys/stat.h>
 #include <unistd.h>
@@ -159,6 +160,14 @@ extern "C" int fstat(int fd, struct stat* st) {
 
 namespace {
 
+// recursive removal without fork (system("rm -rf") is slow in a sanitized process)
+int rmOne(const char* path, const struct stat*, int, struct FTW*) {
+  return ::remove(path);
+}
+void rmTree(const std::string& p) {
+  ::nftw(p.c_str(), rmOne, 16, FTW_DEPTH | FTW_PHYS);
+}
+
 std::string valStr(const Json::Value& v) {
   if (v.isString()) return v.asString();
   return std::to_string(v.asInt64());
@@ -255,7 +264,7 @@ void runScenario(const Json::Value& sc, Json::Value& out) {
         // removed cgroups, and cgroups whose identity changed (removed and re-created)
         for (auto it = prev.rbegin(); it != prev.rend(); ++it) {
           auto f = cur.find(it->first);
-          if (f == cur.end() || f->second != it->second) vh::rmrf(g_cgfs + "/" + it->first);
+          if (f == cur.end() || f->second != it->second) rmTree(g_cgfs + "/" + it->first);
         }
         g_ino.clear();
         for (const auto& c : tick["cgs"]) {
@@ -295,7 +304,7 @@ void runScenario(const Json::Value& sc, Json::Value& out) {
   g_root.clear();
   g_cgfs.clear();
   g_ino.clear();
-  vh::rmrf(root);
+  rmTree(root);
 }
 
 } // namespace
